@@ -34,7 +34,9 @@ RULE = ("cross products of boundary values per header field (DADR none/remote st
         "frame (deduplicated), every octet string of length <= 3, every single-octet substitution in the header region of "
         "base frames; a case is distinct by its octet string (decode side) or by the reference octets of its fields "
         "(encode side); strings whose first octet is not 0x01 are refused at the version octet and are counted as one "
-        "non-trivial case per (length, first octet) in part short")
+        "non-trivial case per (length, first octet) in part short"
+        "  Every header case is also copied with NPCI.update into a fresh NPDU before encoding and after decoding: the "
+        "copy must encode to the same octets / hold the same fields.")
 ASSUMPTIONS = [
     "values between the listed boundaries of each field (interior network numbers, MAC lengths, hop counts) are not enumerated",
     "the encoder is only given what its contract admits: DADR a RemoteStation/RemoteBroadcast/GlobalBroadcast, SADR a "
@@ -353,6 +355,24 @@ def check_header(h):
         field, off = R.first_difference(seg, got)
         fails.append(("npci:encode:octets-differ-at:%s" % field,
                       {"fields": show_h(h), "offset": off, "want": short(want), "got": short(got)}))
+    if got == want:
+        # the header handed on with NPCI.update (the step between every message class and the NPDU, and what a router
+        # does with a frame it relays): every field has to arrive
+        try:
+            z = N.NPDU()
+            z.update(build_npdu(h))
+            z.put_data(bytes(h["payload"]))
+            pdu3 = PDU()
+            z.encode(pdu3)
+            relayed = bytes(pdu3.pduData)
+        except Exception as err:
+            fails.append(("npci:update:copy-of-the-header-does-not-encode:raises-%s" % type(err).__name__,
+                          {"fields": show_h(h), "error": repr(err)}))
+            relayed = want
+        if relayed != want:
+            field, off = R.first_difference(seg, relayed)
+            fails.append(("npci:update:copy-of-the-header-encodes-differently-at:%s" % field,
+                          {"fields": show_h(h), "offset": off, "want": short(want), "got": short(relayed)}))
     try:
         y = N.NPDU()
         y.decode(PDU(want))
@@ -367,6 +387,16 @@ def check_header(h):
         fails.append(("npci:decode:field-differs:%s" % d[0],
                       {"octets": short(want), "field": d[0], "want": show_h({"v": d[1]})["v"], "got": show_h({"v": d[2]})["v"]}))
         return fails
+    try:
+        z = N.NPDU()
+        z.update(y)
+        z.pduData = y.pduData
+        d = diff_header(h, got_header(z))
+    except Exception as err:
+        d = ("raises-%s" % type(err).__name__, None, None)
+    if d is not None:
+        fails.append(("npci:update:copy-of-the-decoded-header:field-differs:%s" % d[0],
+                      {"octets": short(want), "field": d[0], "want": show_h({"v": d[1]})["v"], "got": show_h({"v": d[2]})["v"]}))
     try:
         pdu2 = PDU()
         y.encode(pdu2)
